@@ -126,6 +126,28 @@ fn monitor(ctx: &RunCtx) -> Vec<Finding> {
     data.resize(ctx.script.len() + ZERO_TAIL, 0);
     let l1 = leak_of_history(ctx.cfg, 0, &[Call::Bytes(data.clone())]);
     if l1 == 0 {
+        // a path that built a reference cycle is also repeated on ONE generator: state carried from one generation
+        // to the next (remembered cells, caches keyed by address) must not keep a later cycle alive
+        if ctx.tr.graphs.iter().any(|(_, g)| has_cycle(g)) {
+            let other = {
+                let mut d = vec![0x5au8; 24];
+                d.resize(24 + ZERO_TAIL, 0);
+                d
+            };
+            for h in [
+                vec![Call::Bytes(data.clone()), Call::Bytes(data.clone()), Call::Bytes(data.clone())],
+                vec![Call::Bytes(data.clone()), Call::Reset, Call::Bytes(other.clone()), Call::Bytes(data.clone())],
+            ] {
+                let l = leak_of_history(ctx.cfg, 0, &h);
+                if l != 0 && leak_of_history(ctx.cfg, 0, &h) != 0 {
+                    return vec![Finding {
+                        prop: "C14",
+                        class: "leak:cycle-on-reused-generator".into(),
+                        msg: format!("{l} bytes still allocated after {} generations of a cycle-building path on one generator (a single generation leaks nothing)", h.iter().filter(|c| matches!(c, Call::Bytes(_))).count()),
+                    }];
+                }
+            }
+        }
         return vec![];
     }
     // confirm: the same call leaks the same amount again (not a one-off lazy initialisation)
@@ -134,6 +156,7 @@ fn monitor(ctx: &RunCtx) -> Vec<Finding> {
         return vec![];
     }
     let cyclic = ctx.tr.graphs.iter().any(|(_, g)| has_cycle(g));
+    let _ = cyclic;
     // which in-place opcode closed the first cycle, if any
     let mut closer = "none".to_string();
     if cyclic {
